@@ -240,7 +240,11 @@ func (s *space) large(c *mc.Ctx) {
 		for vi := range vecsBy[n] {
 			cases = append(cases, largeCase{n, vi, 0})
 		}
-		cases = append(cases, largeCase{n, 10, 1}, largeCase{n, 10, 2}) // vector 10 = generic-unreduced (first element of it for kind 2)
+		for vi, v := range vecsBy[n] {
+			if v.name == "generic-unreduced" { // scalars of the two special kinds (kind 2 uses its first element)
+				cases = append(cases, largeCase{n, vi, 1}, largeCase{n, vi, 2})
+			}
+		}
 	}
 	c.Rep.Extra["large_sizes"] = sizes
 	vcount := map[string]int{}
